@@ -90,6 +90,7 @@ class LearningCostAssessor:
 
     def set_imparted_knowledge(self, imparted_knowledge: TaxonNameSet) -> None:
         self.imparted_knowledge = imparted_knowledge
+        self.taxon_cost.cache_clear()
 
     @lru_cache(maxsize=None)
     def taxon_cost(self, taxon: TaxonName) -> float:
